@@ -35,23 +35,24 @@ func (s *recStore) ApplyBlock(cs consensus.State, cau consensus.ApplyUpdate) {
 	if s.between != nil {
 		s.between(true)
 	}
+	// the tip is logged first: the store may commit inside ApplyBlock
+	s.tipLog = append(s.tipLog, cs.Index)
 	s.DBStore.ApplyBlock(cs, cau)
 	s.applies++
 	s.curDepth = 0
-	s.tipLog = append(s.tipLog, cs.Index)
 }
 
 func (s *recStore) RevertBlock(cs consensus.State, cru consensus.RevertUpdate) {
 	if s.between != nil {
 		s.between(false)
 	}
+	s.tipLog = append(s.tipLog, cs.Index)
 	s.DBStore.RevertBlock(cs, cru)
 	s.reverts++
 	s.curDepth++
 	if s.curDepth > s.maxDepth {
 		s.maxDepth = s.curDepth
 	}
-	s.tipLog = append(s.tipLog, cs.Index)
 }
 
 // chainSUT is a real chain.Manager over a real chain.DBStore over the
